@@ -68,6 +68,12 @@ type USafeDetLeaf struct{ Msg, Det string }
 func (e *USafeDetLeaf) Error() string         { return e.Msg }
 func (e *USafeDetLeaf) SafeDetails() []string { return []string{e.Det} }
 
+// UKeyLeaf: unregistered leaf with an ErrorKeyMarker.
+type UKeyLeaf struct{ Msg, Key string }
+
+func (e *UKeyLeaf) Error() string          { return e.Msg }
+func (e *UKeyLeaf) ErrorKeyMarker() string { return e.Key }
+
 // UWrapU: prefix wrapper exposing only Unwrap.
 type UWrapU struct {
 	Pfx string
